@@ -131,7 +131,7 @@ def hook_handler_of(P, contract, variant):
 
 
 def param(fn, ty_regex):
-    i = common.param_index_of_type(fn, ty_regex)
+    i = common.located_param(fn, ty_regex)
     if i is None:
         raise AnchorMissing("%s has no unique parameter of type /%s/" % (fn.path, ty_regex))
     return i
@@ -141,6 +141,50 @@ def P_(fn, i, path=""):
     """Root string of parameter i of fn (plus a projection path); stated in the entry point's terms for a thin per-variant
     handler (descend_intermediate), as Roots does."""
     return common.param_root(fn, i, path)
+
+
+def arm_handler(P, q, region, what):
+    """(call block, function) of the handler a dispatch arm delegates to: the workspace call in the arm that receives the
+    message's own fields.  Other workspace calls of the arm (a response encoder applied to the handler's result, a context
+    loader feeding the handler) are plumbing around it."""
+    hs = [(b, P.fn(p) or P.fn(generic_path(p))) for b, p, fr, t in P.calls(q) if b in region and is_workspace_fn(P, p)]
+    hs = [(b, g) for b, g in hs if g is not None]
+    if len(hs) > 1:
+        R = common.Roots(P)
+        msg_is = [i for i in range(q.body.arg_count) if re.search(r"(Query|Execute|Cw20Hook)Msg$", common.strip_ty(q.body.locals[i + 1]["ty"]))]
+        pre = tuple("P:%s#%d" % (q.path, i) for i in msg_is)
+        fed = []
+        for b, g in hs:
+            cv = P.val_call(q, q.body, b)
+            if any(r.startswith(pre) or any(x in r for x in pre) for a in cv[4] for r in R.roots(a)):
+                fed.append((b, g))
+        if len(fed) == 1:
+            hs = fed
+    if len(hs) != 1:
+        raise AnchorMissing("%s calls %d workspace functions" % (what, len(hs)))
+    return hs[0]
+
+
+def passed_roots(ctx, cv, idx, caller, cidx):
+    """(roots the call passes for the type-located handler input `idx`, the roots the caller's own value would give).
+    For a handler that takes only pieces (`sender: Addr`) both sides are the sets over those pieces."""
+    if isinstance(idx, common.VParam) and idx.kind == "piece":
+        got, want = set(), set()
+        for suf in idx.pieces:
+            got |= {r + "@" + suf for r in ctx.roots(common.vparam_arg(cv, idx, suf))}
+            want.add(P_(caller, cidx, suf) + "@" + suf)
+        return got, want
+    return set(ctx.roots(common.vparam_arg(cv, idx))), {P_(caller, cidx)}
+
+
+def cw20_envelope(P, contract):
+    """(Receive handler Fn, index of its Cw20ReceiveMsg parameter): the envelope a hook arm's values are stated in, also
+    when the arm itself lives in a per-variant function (descend_intermediate)."""
+    recv0, _d = hook_dispatch(P, contract)
+    i = common.param_index_of_type(recv0, r"^cw20::\S*Cw20ReceiveMsg$")
+    if i is None:
+        raise AnchorMissing("%s has no Cw20ReceiveMsg parameter" % recv0.path)
+    return recv0, i
 
 
 INFO_TY = r"^cosmwasm_std::\S*MessageInfo$"
